@@ -2,7 +2,7 @@
 # confirms each refactoring: applies on a scratch worktree of /repo HEAD, runs the pinned suite there, removes the worktree.
 # usage: verify_refactors.sh [jobs]   -> /verif/seeded/refactor/tests.txt
 J=${1:-6}
-OUT=/verif/seeded/refactor/tests.txt
+OUT=${2:-/verif/seeded/refactor}/tests.txt; RDIR=${2:-/verif/seeded/refactor}
 : > $OUT
 one() {
   d=$1; n=$(basename $d); w=/tmp/rfv/$n
@@ -11,11 +11,11 @@ one() {
     r=$(cd $w && /venv/bin/python -m pytest -q -p no:cacheprovider --timeout=900 -x 2>&1 | tail -1)
     imp=$(cd $w && /venv/bin/python -c "import kawin,os;print(os.path.dirname(kawin.__file__))" 2>&1 | tail -1)
   else r="APPLY FAILED"; fi
-  echo "$n | $r | $imp" >> /verif/seeded/refactor/tests.txt
+  echo "$n | $r | $imp" >> $OUT
   git -C /repo worktree remove --force $w
 }
-export -f one
+export -f one; export OUT
 mkdir -p /tmp/rfv
-ls -d /verif/seeded/refactor/C*/ | xargs -P $J -I{} bash -c 'one {}'
+ls -d $RDIR/C*/ | xargs -P $J -I{} bash -c 'one {}'
 git -C /repo worktree prune; rmdir /tmp/rfv 2>/dev/null
 sort -o $OUT $OUT
